@@ -170,6 +170,7 @@ static ssize_t h_read(int fd, void *buf, size_t n) {
   struct fanotify_event_metadata ev;
   memset(&ev, 0, sizeof ev);
   ev.event_len = sizeof ev;
+  ev.metadata_len = FAN_EVENT_METADATA_LEN; /* as the kernel fills it in, whatever the version */
   ev.vers = s->vers ? FANOTIFY_METADATA_VERSION : FANOTIFY_METADATA_VERSION + 1;
   ev.mask = (s->exec ? FAN_OPEN_EXEC : 0) | (s->write ? FAN_CLOSE_WRITE : 0) | (s->ovf ? FAN_Q_OVERFLOW : 0);
   ev.pid = s->pid;
@@ -180,6 +181,28 @@ static ssize_t h_read(int fd, void *buf, size_t n) {
   }
   memcpy(buf, &ev, sizeof ev);
   return sizeof ev;
+}
+/* C12: nothing is created (or removed, or changed) on disk while the user id or the group id is still zero.
+   Every interposed call that modifies the file system is reported and refused while that is the case. */
+static int h_gate(const char *name, const char *path) {
+  static const char *const modifying[] = {"mkdir", "mkdirat", "open-creat", "symlinkat", "link", "linkat", "rename", "renameat", "truncate",
+                                          "ftruncate", "chmod", "fchmod", "utimensat", "unlink", "unlinkat", "rmdir", NULL};
+  if (M.uid && M.gid) {
+    return 0;
+  }
+  for (int i = 0; modifying[i]; ++i) {
+    if (!strcmp(name, modifying[i])) {
+      printf("asroot %s ", name);
+      if (path) {
+        print_hex(path);
+      } else {
+        printf("-");
+      }
+      printf(" %u %u\n", M.uid, M.gid);
+      return EPERM;
+    }
+  }
+  return 0;
 }
 static int h_close(int fd) {
   if (fd == FANFD || fd < 1000) {
@@ -267,6 +290,7 @@ static void run_case(void) {
     W.stat_hook = h_stat;
     W.read_hook = h_read;
     W.close_hook = h_close;
+    W.gate_hook = h_gate;
     W.capture_stderr = 1;
     M.fan_init_hook = h_fan_init;
     M.fan_mark_hook = h_fan_mark;
